@@ -236,6 +236,19 @@ pub fn gen_elf(rng: &mut Rng, trailing_nonload: bool, shifted_phys: bool) -> Vec
             file.extend_from_slice(&be32(v));
         }
     }
+    // ---- every sixth file: the contents of one segment are the LAST bytes of the file (p_offset + p_filesz = file length: legal,
+    //      though no linker lays a file out like that) — the earlier copy of the data stays behind as junk
+    if rng.chance(1, 6) {
+        let loads: Vec<usize> = pht.iter().enumerate().filter(|(_, p)| p.ty == 1).map(|(i, _)| i).collect();
+        let j = rng.below(loads.len() as u64) as usize;
+        let data = blobs[j].1.clone();
+        if !data.is_empty() {
+            let new_off = file.len() as u32;
+            file.extend_from_slice(&data);
+            let at = phoff as usize + 32 * loads[j] + 4;
+            file[at..at + 4].copy_from_slice(&be32(new_off));
+        }
+    }
     // ---- header
     let mut h: Vec<u8> = vec![0x7f, b'E', b'L', b'F', 1, 2, 1, 0, 0, 0, 0, 0, 0, 0, 0, 0];
     h.extend_from_slice(&be16(2));
